@@ -255,6 +255,9 @@ func (s *Sim) runOracles() {
 		if !v.rs.started {
 			continue
 		}
+		if s.prog.Canned != nil {
+			continue // no handler runs: judged by the C07 oracle only
+		}
 		v.oracleC01()
 		v.oracleC02()
 		v.oracleC03()
@@ -936,8 +939,8 @@ func (v *view) oracleC05() {
 		if sd.RSeq == 0 || sd.Seq < v.hReturn.RSeq {
 			continue
 		}
-		if v.closesend != nil && v.closesend.Seq < sd.Seq {
-			continue // sending after one's own CloseSend is a usage error
+		if v.closesend != nil && v.closesend.Seq < sd.RSeq {
+			continue // sending after (or while) closing one's own side is a usage error
 		}
 		if v.disturbedBefore(sd.RSeq) {
 			continue
